@@ -2,8 +2,10 @@ package tally
 
 // Bounded replay / fall-back driver for property C05 (injected with go test -overlay).
 //
+// quick-tier: yes (deterministic, no I/O, < 1 s)
+//
 // Small-scope enumeration of derivation programs (SubScope / Tagged chains of depth
-// 0..3 over a delimiter-free alphabet) from roots with 1, 2, 3, 7 and 64 registry
+// 0..3 over a delimiter-free alphabet, empty tag VALUES included) from roots with 1, 2, 3, 7 and 64 registry
 // shards: two programs with the same (prefix, effective tag set) must return the very
 // same scope and the same metrics, two programs with different identities must not
 // share a scope; the public key function is compared with a reference rendering.
@@ -93,6 +95,7 @@ func TestVerifDriverC05(t *testing.T) {
 		{tags: map[string]string{"k": "1"}}, {tags: map[string]string{"k": "2"}},
 		{tags: map[string]string{"j": "1"}}, {tags: map[string]string{"k": "1", "j": "2"}},
 		{tags: map[string]string{}},
+		{tags: map[string]string{"z": ""}}, {tags: map[string]string{"k": ""}},
 	}
 	var progs [][]vdC05Op
 	progs = append(progs, nil)
